@@ -62,6 +62,10 @@ def build_tree(h, rng, via_attrs=True):
                 h.addf(tid, ci)
                 for k, v in fa.items():
                     h.set(tid, ci, fi, k, v)
+    if rng.random() < 0.12 and h.trees[tid - 1].changes:
+        h.addf(tid, len(h.trees[tid - 1].changes))          # an empty trailing file (valid as the last section)
+    elif rng.random() < 0.06:
+        h.addc(tid)                                          # an empty trailing change
     return tid
 
 
